@@ -429,7 +429,7 @@ def site_cases(src):
     for dom in ("L", "R"):
         for rank in (3, 4):
             def build(tn, dom=dom, rank=rank):
-                return {ps[0]: tn.leaf("E", 3), ps[1]: tn.leaf("K", rank), ps[2]: tn.leaf("O", 4), ps[3]: dom, ps[4]: tn.leaf("B", rank)}
+                return {**module_literals(src, LIB), ps[0]: tn.leaf("E", 3), ps[1]: tn.leaf("K", rank), ps[2]: tn.leaf("O", 4), ps[3]: dom, ps[4]: tn.leaf("B", rank)}
             out.append(run_kernel(fi, build, tna.canon_site(dom, rank, 1), f"contract_one_site[{dom},rank{rank}]"))
     fm = src.func(LIB, "contract_one_site_multi_mpo")
     pm = fm.params()    # environ, ms, mos, domain, ms_conj
@@ -438,60 +438,63 @@ def site_cases(src):
             for nop in (1, 2):
                 def build(tn, dom=dom, rank=rank, nop=nop):
                     ops = [tn.leaf(f"O{j}" if nop > 1 else "O", 4) for j in range(nop)]
-                    return {pm[0]: tn.leaf("E", nop + 2), pm[1]: tn.leaf("K", rank), pm[2]: ops, pm[3]: dom, pm[4]: tn.leaf("B", rank)}
+                    return {**module_literals(src, LIB), pm[0]: tn.leaf("E", nop + 2), pm[1]: tn.leaf("K", rank), pm[2]: ops, pm[3]: dom, pm[4]: tn.leaf("B", rank)}
                 out.append(run_kernel(fm, build, tna.canon_site(dom, rank, nop), f"contract_one_site_multi_mpo[{dom},rank{rank},{nop} operator(s)]"))
     return out
 
 
 def expectation_cases(src):
-    """Mps.expectation closes the network with multi_tensor_contract(path, l, self[0], mpo[0], self_conj[0], r)"""
+    """Mps.expectation, run with recorders: the closing contraction gets (left unit tensor, ket site 0, operator site 0, bra site 0, right environment read at site 1 from an
+    environment built for the domain R with the bra that was handed in) in the order the class's contraction path expects"""
+    from .syminterp import SymInterp, Sym, Blob, OpenSym
+    from .rules.chain_rules import class_resolver
     out = []
-    ex = src.func(MPS, "Mps.expectation")
-    call = [c for c in ast.walk(ex.node) if isinstance(c, ast.Call) and unparse(c.func) == "multi_tensor_contract"]
-    if len(call) != 1:
-        raise AnalysisError(f"{ex.where}: closing contraction not found")
-    args = [unparse(a) for a in call[0].args[1:]]
-    # provenance: l = ones((1,1,1)) -> L ; r = environ.read("R", 1) -> R ; self[0] -> K ; mpo[0] -> O ; self_conj[0] -> B
-    prov = {}
-    for n in ast.walk(ex.node):
-        if isinstance(n, ast.Assign) and isinstance(n.targets[0], ast.Name):
-            t = unparse(n.value).replace(" ", "")
-            if ".ones((1,1,1)" in t:
-                prov[n.targets[0].id] = "L"
-            if t.startswith("environ.read('R'"):
-                prov[n.targets[0].id] = "R"
-    selfn = ex.params()[0]
-    mpon, conjn = ex.params()[1], ex.params()[2]
-    roles = []
-    for a in args:
-        if a in prov:
-            roles.append(prov[a])
-        elif a == f"{selfn}[0]":
-            roles.append("K")
-        elif a == f"{mpon}[0]":
-            roles.append("O")
-        elif a == f"{conjn}[0]":
-            roles.append("B")
-        else:
-            raise AnalysisError(f"{ex.where}: operand {a} of the closing contraction has no known provenance")
-    env_dom = [unparse(c) for c in ast.walk(ex.node) if isinstance(c, ast.Call) and unparse(c.func) == "Environ"]
-    for rel, qual, rank in ((MPS, "Mps._expectation_path", 3), (MPDM, "MpDm._expectation_path", 4)):
-        fi = src.func(rel, qual)
-        ret = [r for r in ast.walk(fi.node) if isinstance(r, ast.Return)]
-        pathnode = None
-        for n in ast.walk(fi.node):
-            if isinstance(n, ast.Assign) and unparse(n.targets[0]) == "path":
-                pathnode = n.value
-        if pathnode is None:
-            raise AnalysisError(f"{fi.where}: literal path not found")
-        path = ast.literal_eval(pathnode)
+    info = {}
+    for rel, cname, rank in ((MPS, "Mps", 3), (MPDM, "MpDm", 4)):
+        ex = src.func(MPS, "Mps.expectation")
+        fi = src.func(rel, f"{cname}._expectation_path")
+        rec = {}
+
+        class Tagged(Sym):
+            pass
+
+        class ChainS(Sym):
+            def __getitem__(self, k):
+                return Tagged(f"{self._role}{k}", role=self._role, site=k)
+        ket = ChainS("ket", _cls=cname, _role="K", dtype="dtype", model="model", is_complex=False, is_mps=cname == "Mps", is_mpdm=cname == "MpDm", is_mpo=False, site_num=3)
+        bra = ChainS("bra", _role="B", is_complex=False)
+        op = ChainS("mpo", _role="O", is_complex=False)
+
+        def environ(mps, mpo, domain=None, mps_conj=None, **k):
+            rec["environ"] = (mps, mpo, domain, mps_conj)
+            return Sym("environ", read=lambda dom, idx: Tagged(f"env[{dom},{idx}]", role="R" if (dom, idx) == ("R", 1) else f"?env[{dom},{idx}]", site=idx))
+
+        def contract(path, *ops):
+            rec["path"], rec["ops"] = path, ops
+            return Sym("value", imag=0.0, real=1.0)
+        npx = OpenSym("xp", make=lambda t: Blob(t), ones=lambda shape, **k: Tagged("ones", role="L" if tuple(shape) == (1, 1, 1) else f"?ones{tuple(shape)}", site=None))
+        it = SymInterp(src, class_resolver(src, {"Mps": MPS, "MpDm": MPDM}),
+                       {"Environ": environ, "multi_tensor_contract": contract, "xp": npx, "np": OpenSym("np", make=lambda t: Blob(t), isclose=lambda *a, **k: True), "Op": Sym("Op"), "OpSum": Sym("OpSum"),
+                        "Mpo": Sym("Mpo"), "isinstance": lambda x, t: False, "float": lambda x: x, "complex": lambda x: x})
+        it.call_function(ex, [ket, op, bra])
+        if "ops" not in rec:
+            raise AnalysisError(f"{ex.where}: closing contraction not reached")
+        roles = [getattr(o, "role", "?") for o in rec["ops"]]
+        sites = [getattr(o, "site", None) for o in rec["ops"]]
+        info = {"operands": [repr(o) for o in rec["ops"]], "roles": roles, "environ": repr(rec.get("environ"))}
+        e_ok = rec.get("environ") is not None and rec["environ"][0] is ket and rec["environ"][1] is op and rec["environ"][2] == "R" and rec["environ"][3] is bra
+        path = rec["path"]
         tn = TN()
         rk = {"L": 3, "R": 3, "O": 4, "K": rank, "B": rank}
+        key = f"{cname}._expectation_path closed by Mps.expectation"
+        if not e_ok or any(r not in rk for r in roles) or any(s_ not in (None, 0, 1) for s_ in sites) or any(s_ != 0 for r, s_ in zip(roles, sites) if r in "KOB"):
+            out.append(Case(key, ex.where, ex.node.lineno, error=f"operands {info['operands']} with the environment {info['environ']}: expected the unit tensor, site 0 of ket / operator / bra, and "
+                                                                 "the right environment at site 1 of Environ(ket, operator, 'R', mps_conj=bra)"))
+            continue
         ops = [tn.leaf(r, rk[r]) for r in roles]
         try:
             res = tna.contract_path(tn, [(p[0], p[1]) for p in path], ops)
-            out.append(Case(f"{qual} closed by Mps.expectation", fi.where, pathnode.lineno, tn.signature(res), tna.canon_expectation(rank),
-                            calls=[("path", p[1], pathnode.lineno) for p in path]))
+            out.append(Case(key, fi.where, fi.node.lineno, tn.signature(res), tna.canon_expectation(rank), calls=[("path", p[1], fi.node.lineno) for p in path]))
         except Malformed as m:
-            out.append(Case(f"{qual} closed by Mps.expectation", fi.where, pathnode.lineno, error=f"malformed contraction: {m}"))
-    return out, {"operands": args, "roles": roles, "environ": env_dom}
+            out.append(Case(key, fi.where, fi.node.lineno, error=f"malformed contraction: {m}"))
+    return out, info
